@@ -412,11 +412,14 @@ def OModel.postFluentVV (m : OModel α) (rel : Rel) (x y : Nat) : OModel α :=
     | _, _, _ => m.vars
   { vars := vars, posts := m.posts ++ [Opt.postFluentVV rel x y] }
 
-/-- `m.new(x.eq(float(c)))`: materialised at once — the interval of `x` is overwritten with
-`[c, c]`, a constant variable `float(c, c)` is created and `props.equals(x, const)` is posted -/
+/-- `m.new(x.eq(float(c)))`: materialised at once — the interval of `x` becomes `[c, c]`
+when `c` lies inside it, a constant variable `float(c, c)` is created and `props.equals(x, const)` is posted -/
 def OModel.postEqImm (m : OModel α) (x : Nat) (c step : α) : OModel α :=
   let vars := match m.vars[x]? with
-    | some (.flt iv) => m.vars.set x (.flt { iv with min := c, max := c })
+    | some (.flt iv) =>
+      -- since the repair `fix: x.eq(c) on a float variable narrows the domain only to a value inside
+      -- it`: a constant outside the interval leaves the domain alone
+      if Num.le iv.min c && Num.le c iv.max then m.vars.set x (.flt { iv with min := c, max := c }) else m.vars
     | _ => m.vars
   { vars := vars ++ [.flt { min := c, max := c, step := step }],
     posts := m.posts ++ [.cmp .eq (.v x) (.v vars.length)] }
